@@ -56,7 +56,8 @@ EPS = ["EPS_1"]
 COLS = ["WGT", "APGR", "TIME"]
 SMALL = set(ETAS + EPS)
 
-PRE_STEPS = ["none", "peripheral", "absorption", "covariate", "proportional", "combined", "joint", "lag", "fix", "iiv_ruv"]
+PRE_STEPS = ["none", "peripheral", "absorption", "covariate", "proportional", "combined", "joint", "lag", "fix", "iiv_ruv",
+             "blockfix0", "fixvar0", "iov", "iovfix0"]
 
 
 def budget(tier):
@@ -130,6 +131,20 @@ def gen_prog(rng):
     return stmts
 
 
+def gen_rv(rng):
+    """Random-effect structure on the generic pheno base: ETA_CL / ETA_VC separate or joint (BLOCK), every variance /
+    covariance parameter left estimated, fixed at its value, or fixed to 0 (kept positive semi-definite: a zero
+    variance forces a zero covariance)."""
+    pick = lambda: rng.choice([None, None, "keep", 0, 0])
+    joint = rng.random() < 0.7
+    fix = {"IIV_CL": pick(), "IIV_VC": pick()}
+    if joint:
+        fix["COV"] = pick()
+        if fix["IIV_CL"] == 0 or fix["IIV_VC"] == 0:
+            fix["COV"] = 0
+    return {"joint": joint, "fix": fix}
+
+
 def gen_cases(rng, n, tier):
     out = []
     for i in range(n):
@@ -148,8 +163,11 @@ def gen_cases(rng, n, tier):
                 table.append([o, rng.choice(pool)])          # possible clash (documented: caller's duty)
             else:
                 table.append([o, "R_" + o])
-        out.append({"kind": "prog", "stmts": stmts, "base": rng.choice(["plain", "plain", "zero", "fixed"]),
-                    "rename": table, "seed": rng.randrange(1 << 30)})
+        base = rng.choice(["plain", "zero", "fixed", "rv", "rv"])
+        case = {"kind": "prog", "stmts": stmts, "base": base, "rename": table, "seed": rng.randrange(1 << 30)}
+        if base == "rv":
+            case["rv"] = gen_rv(rng)
+        out.append(case)
     return out
 
 
@@ -186,6 +204,13 @@ def corpus_cases():
          "base": "plain", "rename": [["B", "R_B"]], "seed": 11},
         {"kind": "prog", "stmts": [A("CL", "POP_CL*exp(ETA_CL)"), A("Y", "CL*WGT + EPS_1")],
          "base": "plain", "rename": [["CL", "R_CL"]], "seed": 12},
+        # joint block whose covariance alone is fixed to 0: both etas are random and must survive cleanup_model
+        {"kind": "prog", "stmts": [A("CL", "POP_CL*exp(ETA_CL)"), A("V", "POP_VC*exp(ETA_VC)"), A("Y", "CL/V + EPS_1")],
+         "base": "rv", "rv": {"joint": True, "fix": {"IIV_CL": None, "IIV_VC": None, "COV": 0}}, "rename": [["CL", "R_CL"]], "seed": 13},
+        {"kind": "prog", "stmts": [A("CL", "POP_CL*exp(ETA_CL)"), A("V", "POP_VC*exp(ETA_VC)"), A("Y", "CL/V + EPS_1")],
+         "base": "rv", "rv": {"joint": True, "fix": {"IIV_CL": 0, "IIV_VC": "keep", "COV": 0}}, "rename": [["CL", "R_CL"]], "seed": 14},
+        {"kind": "model", "base": "pheno", "pre": ["blockfix0"], "seed": 15},
+        {"kind": "model", "base": "pheno", "pre": ["iov", "iovfix0"], "seed": 16},
         {"kind": "model", "base": "pheno", "pre": [], "seed": 6},
         {"kind": "model", "base": "pheno", "pre": ["peripheral", "absorption"], "seed": 7},
         {"kind": "model", "base": "pheno_linear", "pre": [], "seed": 8},
@@ -231,6 +256,93 @@ def worker_init():
     EXAMPLES = {"pheno": pheno, "pheno_linear": pm.load_example_model("pheno_linear")}
 
 
+_RV_CACHE = {}
+
+
+def _rv_base(spec):
+    key = repr(sorted(spec["fix"].items())) + str(spec["joint"])
+    if key not in _RV_CACHE:
+        g = BASES["plain"]
+        if spec["joint"]:
+            before = set(g.parameters.names)
+            g = pm.create_joint_distribution(g, ["ETA_CL", "ETA_VC"], individual_estimates=None)
+            cov = [n for n in g.parameters.names if n not in before][0]
+        to0, keep = {}, []
+        for nm, v in spec["fix"].items():
+            name = cov if nm == "COV" else nm
+            if v == 0:
+                to0[name] = 0
+            elif v == "keep":
+                keep.append(name)
+        if to0:
+            g = pm.fix_parameters_to(g, to0)
+        if keep:
+            g = pm.fix_parameters(g, keep)
+        _RV_CACHE[key] = g
+    return _RV_CACHE[key]
+
+
+def _zero_fixed(m):
+    return [p.name for p in m.parameters if p.fix and p.init == 0]
+
+
+def _legit_zero_rvs(m):
+    """Random variables the distribution pins to 0: their own variance is fixed to zero."""
+    zf = set(_zero_fixed(m))
+    out = []
+    for dist in m.random_variables:
+        for n in dist.names:
+            if str(dist.get_variance(n)) in zf:
+                out.append(n)
+    return out
+
+
+def _entitled(m):
+    """Values every refactoring is entitled to assume: fixed thetas at their value, parameters fixed to zero at 0,
+    random variables whose variance is fixed to zero at 0."""
+    ov = {n: sympy.Rational(str(m.parameters[n].init)) for n in _fixed_thetas(m)}
+    ov.update({n: sympy.Integer(0) for n in _zero_fixed(m) if n in m.random_variables.parameter_names})
+    ov.update({n: sympy.Integer(0) for n in _legit_zero_rvs(m)})
+    return ov
+
+
+def _check_non_random(M, w, drv, seed, small, rng, tags, k, mon, what=""):
+    """replace_non_random_rvs: K on which random variables / parameters are removed and on the statements; monitors:
+    only random variables without variability are removed, the model function is unchanged where those are 0."""
+    R = _call(mon, tags, "replace_non_random_rvs", lambda: pm.replace_non_random_rvs(M))
+    if R is None:
+        return False
+    zf = _zero_fixed(M)
+    legit = set(_legit_zero_rvs(M))
+    removed = [n for n in M.random_variables.names if n not in R.random_variables.names]
+    removed_p = [n for n in M.parameters.names if n not in R.parameters.names]
+    tags.append("nonrandom:removed=" + str(len(removed)) + ("/joint" if any(len(d.names) > 1 for d in M.random_variables) else ""))
+    bad = [n for n in removed if n not in legit]
+    if bad:
+        mon.append({"cls": "replace-non-random-rvs-removes-random-rv", "what": f"{what}replace_non_random_rvs removed {bad} whose variance "
+                    f"is not fixed to zero (zero-fixed parameters: {zf}; distributions: {[(list(d.names), list(d.parameter_names)) for d in M.random_variables]})"})
+    lost = [n for n in R.random_variables.parameter_names if n not in R.parameters.names]
+    if lost:
+        mon.append({"cls": "replace-non-random-rvs-loses-rv-parameter", "what": f"{what}replace_non_random_rvs: remaining random variables use {lost}, no longer parameters"})
+    ov = _entitled(M)
+    diff = U.compare_eval(U.evaluate(M.statements, seed, small=small, override=ov),
+                          U.evaluate(R.statements, seed, small=small, override=ov))
+    if diff:
+        mon.append({"cls": "replace-non-random-rvs-changes-value", "what": f"{what}replace_non_random_rvs changed the model function "
+                    f"(random variables with non-zero variance at non-zero values): {diff}"})
+    if drv is not None and w is not None:
+        dists = [[list(d.names), list(d.parameter_names)] for d in M.random_variables]
+        ans = drv.ask(["nonrandom", zf, dists, w])
+        syms = set(ans[0])
+        if {n for n in M.random_variables.names if n in syms} != set(removed) or \
+                {n for n in M.parameters.names if n in syms} != set(removed_p):
+            k.append(f"replace_non_random_rvs: model removes {sorted(syms)}, code removes rvs {removed} parameters {removed_p}")
+        if [list(x) for x in ans[1]] != [list(d.names) for d in R.random_variables]:
+            k.append(f"replace_non_random_rvs: model keeps {ans[1]}, code keeps {[list(d.names) for d in R.random_variables]}")
+        k += U.compare_wire(ans[2], R.statements, rng, "replace_non_random_rvs")
+    return list(R.statements) != list(M.statements)
+
+
 def build_statements(stmts):
     sts = []
     for s in stmts:
@@ -257,7 +369,7 @@ def _norm(x):
     return str(x)
 
 
-def _call(mon, tags, what, fn, refusal=()):
+def _call(mon, tags, what, fn, refusal=(), model=None):
     """Run a refactoring of the real code; an exception that is not a documented refusal is an internal error."""
     try:
         return fn()
@@ -266,6 +378,12 @@ def _call(mon, tags, what, fn, refusal=()):
             raise
         if refusal and isinstance(e, refusal):
             tags.append(f"{what}:refused-{type(e).__name__}")
+            return None
+        if model is not None and type(e).__name__ == "UnexpectedToken" and "'FIX'" in str(e) and any(
+                d.level == "IOV" and any(model.parameters[n].fix for n in d.parameter_names) for d in model.random_variables.etas):
+            # NONMEM code generation: a fixed IOV omega is written as `$OMEGA BLOCK(1) SAME FIX`, which pharmpy's own
+            # $OMEGA grammar rejects when the record is re-parsed (any refactoring that regenerates the omegas)
+            mon.append({"cls": "nonmem-fixed-iov-omega-same-fix-unparsable", "what": f"{what} raised UnexpectedToken: {str(e)[:120]}"})
             return None
         mon.append({"cls": f"internal-error:{what}", "what": f"{what} raised {type(e).__name__}: {str(e)[:200]}"})
         return None
@@ -291,7 +409,7 @@ def run_prog(case, drv):
     rng = random.Random(case["seed"])
     seed = case["seed"]
     k, mon, tags = [], [], []
-    base = BASES[case["base"]]
+    base = _rv_base(case["rv"]) if case["base"] == "rv" else BASES[case["base"]]
     ss = build_statements(case["stmts"])
     try:
         M = base.replace(statements=ss)
@@ -350,9 +468,12 @@ def run_prog(case, drv):
             changed |= list(cs) != list(md_sts)
             nfixed = len(_fixed_thetas(M)) if case["base"] == "fixed" else 0
             body = cs[nfixed:]
-            ev_md = U.evaluate(md_sts, seed, small=SMALL, override=_fixed_override(M, case))
-            ev_c = U.evaluate(cs, seed, small=SMALL, override=_fixed_override(M, case))
+            ev_md = U.evaluate(md_sts, seed, small=SMALL, override=_entitled(M))
+            ev_c = U.evaluate(cs, seed, small=SMALL, override=_entitled(M))
             kept = [str(s.symbol) for s in body if U.is_assignment(s)]
+            bad_rm = [n for n in M.random_variables.names if n not in C.random_variables.names and n not in _legit_zero_rvs(M)]
+            if bad_rm:
+                mon.append({"cls": "replace-non-random-rvs-removes-random-rv", "what": f"cleanup_model removed {bad_rm} whose variance is not fixed to zero"})
             diff = U.compare_eval(ev_md, ev_c, symbols=kept)
             if diff is None and "Y" not in ev_c[0]:
                 diff = "the dependent variable Y is no longer defined"
@@ -392,25 +513,12 @@ def run_prog(case, drv):
                 k.append(f"injectiveOn: Lean {ans[1]}, Python {injective}")
 
     # ---------- replace_non_random_rvs / replace_fixed_thetas
-    if case["base"] == "zero":
-        R = _call(mon, tags, "replace_non_random_rvs", lambda: pm.replace_non_random_rvs(M))
-        if R is not None:
-            changed |= list(R.statements) != list(M.statements)
-            zero = {"ETA_VC": sympy.Integer(0), "IIV_VC": sympy.Integer(0)}
-            diff = U.compare_eval(U.evaluate(M.statements, seed, small=SMALL, override=zero),
-                                  U.evaluate(R.statements, seed, small=SMALL, override=zero))
-            if diff:
-                mon.append({"cls": "replace-non-random-rvs-changes-value", "what": f"replace_non_random_rvs: {diff}"})
-            if "ETA_VC" in R.random_variables.names or "ETA_VC" in {str(x) for x in R.statements.free_symbols}:
-                mon.append({"cls": "replace-non-random-rvs-incomplete", "what": "ETA_VC (variance fixed to 0) still present"})
-            if drv is not None and w is not None:
-                ans = drv.ask(["consts", [["IIV_VC", 0], ["ETA_VC", 0]], w])
-                k += U.compare_wire(ans, R.statements, rng, "replace_non_random_rvs")
+    changed |= _check_non_random(M, w, drv, seed, SMALL, rng, tags, k, mon)
     if case["base"] == "fixed":
         R = _call(mon, tags, "replace_fixed_thetas", lambda: pm.replace_fixed_thetas(M))
         if R is not None:
             changed = True
-            ov = _fixed_override(M, case)
+            ov = _entitled(M)
             diff = U.compare_eval(U.evaluate(M.statements, seed, small=SMALL, override=ov),
                                   U.evaluate(R.statements, seed, small=SMALL, override=ov))
             if diff:
@@ -533,16 +641,6 @@ def _mu_class(M):
         if any(e.count(eta) > 1 for eta in e.free_symbols & etas):
             return "mu-reference-eta-occurs-twice-in-assignment"
     return "mu-reference-changes-value"
-
-
-def _fixed_override(M, case):
-    """Values the refactorings are entitled to assume: fixed parameters at their value, etas whose variance is
-    fixed to zero at zero."""
-    if case["base"] == "fixed":
-        return {p.name: sympy.Rational(str(p.init)) for p in M.parameters if p.fix}
-    if case["base"] == "zero":
-        return {"ETA_VC": sympy.Integer(0), "IIV_VC": sympy.Integer(0)}
-    return None
 
 
 def _mu_surgery(drv, old, new, rng, tags):
@@ -678,6 +776,22 @@ def _pre(m, step):
         return pm.fix_parameters(m, [m.parameters.names[0]])
     if step == "iiv_ruv":
         return pm.set_iiv_on_ruv(m)
+    if step == "blockfix0":
+        # `$OMEGA BLOCK(2) FIX v1 / 0 v2`: a joint distribution of the first two etas, all fixed, zero covariance
+        etas = list(m.random_variables.etas.names)[:2]
+        before = set(m.parameters.names)
+        j = pm.create_joint_distribution(m, etas, individual_estimates=None)
+        names = list(j.random_variables[etas[0]].parameter_names)
+        cov = [n for n in names if n not in before]
+        return pm.fix_parameters_to(j, {n: (0 if n in cov else j.parameters[n].init) for n in names})
+    if step == "fixvar0":
+        uni = [d for d in m.random_variables.etas if len(d.names) == 1]
+        return pm.fix_parameters_to(m, {uni[-1].parameter_names[0]: 0})
+    if step == "iov":
+        return pm.add_iov(m, "FA1", ["CL"], distribution="same-as-iiv")
+    if step == "iovfix0":
+        iov = [d for d in m.random_variables.etas if d.level == "IOV"]
+        return pm.fix_parameters_to(m, {iov[0].parameter_names[0]: 0})
     raise ValueError(step)
 
 
@@ -695,6 +809,9 @@ def run_model(case, drv):
                 raise
             tags.append(f"pre-failed:{step}:{type(e).__name__}")
     small = set(m.random_variables.names)
+
+    def _callm(what, fn, **kw):
+        return _call(mon, tags, what, fn, model=m, **kw)
     ev0 = U.evaluate(m.statements, seed, small=small)
     changed = False
 
@@ -709,7 +826,7 @@ def run_model(case, drv):
         if diff:
             mon.append({"cls": f"{what}-changes-value", "what": f"{what} changed the model function of {case['base']}+{case['pre']}: {diff}"})
 
-    R = _call(mon, tags, "mu_reference_model", lambda: pm.mu_reference_model(m), refusal=(IndexError, NotImplementedError))
+    R = _callm("mu_reference_model", lambda: pm.mu_reference_model(m), refusal=(IndexError, NotImplementedError))
     if R is not None:
         tags.append("r:mu_reference_model")
         changed |= list(R.statements) != list(m.statements)
@@ -749,11 +866,11 @@ def run_model(case, drv):
             tags.append("r:cleanup_model")
             _rft_check(mon, "cleanup_model", m, C)
             kept = [str(s.symbol) for s in C.statements if U.is_assignment(s)]
-            zero = {}
-            for dist in m.random_variables:
-                if all(m.parameters[p].fix and m.parameters[p].init == 0 for p in dist.parameter_names):
-                    zero.update({n: sympy.Integer(0) for n in list(dist.names) + list(dist.parameter_names)})
-            ov = dict(fixed, **zero)
+            ov = dict(fixed, **_entitled(m))
+            bad_rm = [n for n in m.random_variables.names if n not in C.random_variables.names and n not in _legit_zero_rvs(m)]
+            if bad_rm:
+                mon.append({"cls": "replace-non-random-rvs-removes-random-rv",
+                            "what": f"cleanup_model of {case['base']}+{case['pre']} removed {bad_rm} whose variance is not fixed to zero"})
             ev_a = U.evaluate(R.statements, seed, small=small, override=ov)
             ev_b = U.evaluate(C.statements, seed, small=small, override=ov)
             diff = U.compare_eval(ev_a, ev_b, symbols=[x for x in kept if x not in fixed])
@@ -764,8 +881,10 @@ def run_model(case, drv):
                 cls = ("cleanup-alias-chain" if "chain" in inl_bad else
                        "cleanup-alias-redefined" if "redefine" in inl_bad else "cleanup-changes-value")
                 mon.append({"cls": cls, "what": f"cleanup_model changed the model function of {case['base']}+{case['pre']}: {diff}"})
+    # replace_non_random_rvs
+    changed |= _check_non_random(m, wm, drv, seed, small, rng, tags, k, mon, what=f"{case['base']}+{case['pre']}: ")
     # greekify / rename
-    R = _call(mon, tags, "greekify_model", lambda: pm.greekify_model(m))
+    R = _callm("greekify_model", lambda: pm.greekify_model(m))
     if R is not None:
         ren = dict(zip(m.parameters.names, R.parameters.names))
         ren.update(zip(m.random_variables.names, R.random_variables.names))
@@ -797,7 +916,7 @@ def run_model(case, drv):
                          f"those parameters removed (prependConsts): head {head}, parameters {list(R.parameters.names)}")
             sem("replace_fixed_thetas", R, ev0_=U.evaluate(mf.statements, seed, small=small, override=ov), ev_kw={"override": ov})
     # remove_unused_parameters_and_rvs
-    R = _call(mon, tags, "remove_unused_parameters_and_rvs", lambda: pm.remove_unused_parameters_and_rvs(m))
+    R = _callm("remove_unused_parameters_and_rvs", lambda: pm.remove_unused_parameters_and_rvs(m))
     if R is not None:
         sem("remove_unused_parameters_and_rvs", R)
         used = {str(x) for x in m.statements.free_symbols}
@@ -808,14 +927,14 @@ def run_model(case, drv):
     # create / split joint distribution
     etas = list(m.random_variables.etas.names)
     if len(etas) >= 2:
-        R = _call(mon, tags, "create_joint_distribution", lambda: pm.create_joint_distribution(m, etas[:2], individual_estimates=None))
+        R = _callm("create_joint_distribution", lambda: pm.create_joint_distribution(m, etas[:2], individual_estimates=None))
         if R is not None:
             sem("create_joint_distribution", R)
             if sorted(R.random_variables.etas.names) != sorted(etas):
                 mon.append({"cls": "joint-distribution-changes-etas", "what": f"etas {etas} -> {R.random_variables.etas.names}"})
             # documented: only non-fixed etas are split; an explicitly named eta with a fixed parameter is refused
             has_fixed = any(R.parameters[n].fix for e_ in etas[:2] for n in R.random_variables[e_].parameter_names)
-            R2 = _call(mon, tags, "split_joint_distribution", lambda: pm.split_joint_distribution(R, etas[:2]),
+            R2 = _callm("split_joint_distribution", lambda: pm.split_joint_distribution(R, etas[:2]),
                        refusal=(ValueError,) if has_fixed else ())
             if R2 is not None:
                 sem("split_joint_distribution", R2)
@@ -824,20 +943,20 @@ def run_model(case, drv):
                 if va is not None and va != vb:
                     mon.append({"cls": "split-joint-changes-variance", "what": f"variance parameters {va} -> {vb}"})
     # convert_model nonmem <-> generic
-    G = _call(mon, tags, "convert_model(generic)", lambda: pm.convert_model(m, "generic"))
+    G = _callm("convert_model(generic)", lambda: pm.convert_model(m, "generic"))
     if G is not None:
         sem("convert_model(generic)", G)
-        N = _call(mon, tags, "convert_model(nonmem)", lambda: pm.convert_model(G, "nonmem"))
+        N = _callm("convert_model(nonmem)", lambda: pm.convert_model(G, "nonmem"))
         if N is not None:
             sem("convert_model(nonmem)", N)
     # unload / load dataset
     if m.dataset is not None:
-        Un = _call(mon, tags, "unload_dataset", lambda: pm.unload_dataset(m))
+        Un = _callm("unload_dataset", lambda: pm.unload_dataset(m))
         if Un is not None:
             sem("unload_dataset", Un)
             if Un.dataset is not None:
                 mon.append({"cls": "unload-dataset-keeps-data", "what": "dataset still present after unload_dataset"})
-            L = _call(mon, tags, "load_dataset", lambda: pm.load_dataset(Un))
+            L = _callm("load_dataset", lambda: pm.load_dataset(Un))
             if L is not None:
                 sem("load_dataset", L)
                 if L.dataset is None or not L.dataset.equals(m.dataset):
@@ -853,7 +972,7 @@ def run_model(case, drv):
     ode = m.statements.ode_system
     if ode is not None and len(ode.compartment_names) <= 2:
         # sympy's dsolve may be unable to solve a system: that is a refusal, not a change of the model function
-        S = _call(mon, tags, "solve_ode_system", lambda: pm.solve_ode_system(m), refusal=(NotImplementedError, ValueError))
+        S = _callm("solve_ode_system", lambda: pm.solve_ode_system(m), refusal=(NotImplementedError, ValueError))
         if S is not None and S.statements.ode_system is None:
             tags.append("r:solve_ode_system")
             changed = True
